@@ -11,10 +11,20 @@ ASSUMPTIONS = ["a crash or hang is observed per isolated driver process; the mas
 
 OPS = [("out d 0 0", True), ("out d 0 1", True), ("out j 0 0", True), ("out j 0 1", True), ("out y 0 0", True), ("out t 0 1", True),
        ("out d 1 0", True), ("out d 1 1", True), ("walk", True),
-       ("mout d 0 0", False), ("mout j 0 0", False), ("mout d 1 0", False), ("mout y 0 0", False), ("mwalk", False)]
+       ("mout d 0 0", False), ("mout j 0 0", False), ("mout d 1 0", False), ("mout y 0 0", False), ("mwalk", False),
+       ("fs:m,0", True), ("fs:m,1", True), ("fs:v,0", True), ("fs:v,1", True), ("mfs:m,0", False), ("mfs:v,1", False)]
 
 
 def mk_case(op, doc, bf, exts):
+    if "fs:" in op:
+        # mkdir (real / dry-run) and verify inside a fresh jail with a pre-existing target
+        kind = op.split(":")[1]
+        pre = "F,d:746774"
+        if kind.startswith("m"):
+            body = "m,%s,%s,746774,-,-,-,-,%s" % (kind[2], "+".join(x.hex() if x else "_" for x in exts) if exts else "-", hx(doc))
+        else:
+            body = "v,%s,746774,%s" % (kind[2], hx(doc))
+        return ("mhist " if op.startswith("m") else "hist ") + pre + ";" + body
     if op.endswith("walk"):
         return "%s %s - %s" % (op, bf_args(bf), hx(doc))
     return "%s %s %s %s" % (op, bf_args(bf), hxlist(exts), hx(doc))
@@ -37,7 +47,7 @@ def run(ck, rng):
         ops = OPS if (ck.tier == "thorough" or len(doc) > 60000 or rng.random() < 0.15) else rng.sample(OPS, 4)
         for op, modelled in ops:
             bf = rng.choice(BF_CHOICES)
-            exts = rng.choice([[], [b".go"], [b"a", b"b"]])
+            exts = rng.choice([[], [b".go"], [b"a", b"b"], [b".md", b"Makefile", b".go"]])
             cases.append(mk_case(op, doc, bf, exts))
             meta.append((op, modelled, doc))
     impl, crashes = run_impl(exe, cases)
@@ -45,8 +55,8 @@ def run(ck, rng):
     model = run_model(mcases)
     broken_corr = None
     for i, (op, modelled, doc) in enumerate(meta):
-        mres = model[i].split(" ")[0]
-        ires = impl[i].split(" ")[0]
+        mres = model[i].split("|")[-1].split(" ")[0]
+        ires = impl[i].split("|")[-1].split(" ")[0]
         nontrivial = (mres != "ok") or doc.count(b"\n") >= 2
         ck.case(cases[i][:400], nontrivial)
         ck.count("model:" + mres.split(":")[1] if mres.startswith("err:") else "model:" + mres)
@@ -54,7 +64,7 @@ def run(ck, rng):
         bad = None
         if ires in ("panic", "crash", "timeout"):
             bad = "does not return normally: " + ires
-        elif is_blank_doc(doc) and impl[i] != "ok -":
+        elif is_blank_doc(doc) and "fs:" not in op and impl[i] != "ok -":
             bad = "blank input must give empty output and nil"
         if bad:
             ck.violation({"property": "C12", "kind": "no_crash", "class": ires + "|" + op.split(" ")[0], "case": cases[i],
